@@ -1667,6 +1667,7 @@ pieceGetMixed(ULong nbytes)
 local void	stoGcMarkAndSweep (void);
 local int	stoGcMark	  (void);
 local int	stoGcMarkRange	  (Pointer *lo, Pointer *hi, int check);
+local int	stoGcMarkRange0	  (Pointer *lo, Pointer *hi, int check);
 local int	stoGcSweep	  (void);
 local int	stoGcSweepFixed	  (Section *);
 local int	stoGcSweepMixed	  (Section *);
@@ -2026,8 +2027,50 @@ stoGcMark(void)
 	return n;
 }
 
+/*
+ * The marker follows pointers by calling itself (only a pointer in the last
+ * word of a piece is followed by iteration), so a long chain linked through
+ * any other word used one C stack frame per piece and overflowed the stack.
+ * Beyond StoMarkMaxDepth frames a piece (already marked) is put on a list
+ * of pending ranges instead, and the outermost call scans that list.
+ */
+#define StoMarkMaxDepth	512
+#define StoMarkPendingMax	(2 * 32768)
+
+/*
+ * A fixed array: nothing may be allocated or released while marking, the
+ * memory map being scanned was read before marking started.  When the
+ * array is full the marker recurses as before.
+ */
+static Pointer	*stoMarkPendingV[StoMarkPendingMax];
+static long	stoMarkPendingC   = 0;
+static int	stoMarkDepth      = 0;
+
+local Bool
+stoMarkDefer(Pointer *lo, Pointer *hi)
+{
+	if (stoMarkPendingC + 2 > StoMarkPendingMax)
+		return false;
+	stoMarkPendingV[stoMarkPendingC++] = lo;
+	stoMarkPendingV[stoMarkPendingC++] = hi;
+	return true;
+}
+
 local int
 stoGcMarkRange(Pointer *lo, Pointer *hi, int check)
+{
+	int	n = stoGcMarkRange0(lo, hi, check);
+
+	while (stoMarkPendingC > 0) {
+		Pointer *phi = stoMarkPendingV[--stoMarkPendingC];
+		Pointer *plo = stoMarkPendingV[--stoMarkPendingC];
+		n += stoGcMarkRange0(plo, phi, (int) 0);
+	}
+	return n;
+}
+
+local int
+stoGcMarkRange0(Pointer *lo, Pointer *hi, int check)
 {
 	Pointer		p, *pp, *plo, *phi, *hi0;
 	static int	pgno, qmno;
@@ -2314,7 +2357,13 @@ TailRecursion:
 			}
 		}
 
-		n += stoGcMarkRange(plo, phi, (int) 0);
+		if (stoMarkDepth >= StoMarkMaxDepth && stoMarkDefer(plo, phi)) {
+			if (DEBUG(sto)) {stoMarkArea = oldStoMarkArea;}
+			continue;
+		}
+		stoMarkDepth++;
+		n += stoGcMarkRange0(plo, phi, (int) 0);
+		stoMarkDepth--;
 
 		/* Pointer classification */
 		if (DEBUG(sto)) {stoMarkArea = oldStoMarkArea;}
